@@ -72,6 +72,15 @@ def run_history(ops, le):
     obs, mops = [], []
     err = None
 
+    def snap_of(e):
+        """Rendering and tree of a new expression object; the rendering is a function of the tree alone."""
+        nonlocal err
+        from props import c05
+        want = c05.indep_render(e, lambda sym: sym.key, False, le)
+        if (str(e) != want or e.render() != want or e.render('{symbol.key}') != want) and not err:
+            err = 'a new expression renders as %r / %r, its tree renders as %r' % (str(e), e.render(), want)
+        return (str(e), enc_expr(e))
+
     def check_unchanged(where):
         nonlocal err
         for e, snap in zip(exprs, snaps):
@@ -107,7 +116,7 @@ def run_history(ops, le):
                     obs.append([1, [0, []]])
                 else:
                     exprs.append(got[1])
-                    snaps.append((str(got[1]), enc_expr(got[1])))
+                    snaps.append(snap_of(got[1]))
                     obs.append([1, [0, [len(exprs) - 1]]])
             else:
                 g = got
@@ -124,7 +133,7 @@ def run_history(ops, le):
                 if kind == 'simplify':
                     r = exprs[h].simplify()
                     exprs.append(r)
-                    snaps.append((str(r), enc_expr(r)))
+                    snaps.append(snap_of(r))
                     obs.append([1, [0, [len(exprs) - 1]]])
                 else:
                     obs.append([4, enc_str(str(exprs[h]))])
@@ -157,7 +166,7 @@ def run_history(ops, le):
                     if enc_expr(r) != enc_expr(F.dedup(e)) and not err:
                         err = 'dedup differs from a fresh Licensing'
                     exprs.append(r)
-                    snaps.append((str(r), enc_expr(r)))
+                    snaps.append(snap_of(r))
                     obs.append([1, [0, [len(exprs) - 1]]])
                 else:
                     e2 = exprs[op[3]]
@@ -180,7 +189,9 @@ def run(rep, tier, seed):
     hist = [gen_history(rng) for _ in range(n)]
     results = [run_history(h, le) for h in hist]
     res = run_model([(17, r[2]) for r in results], chunk=100)
+    rep.trail = []
     for h, (err, obs, mops, exprs), r in zip(hist, results, res):
+        rep.trail.append({'raw': repr(list(h)), 'kind': 'history'})
         ninst = sum(1 for o in h if o[0] == 'new')
         rep.case(repr(h), nontrivial=ninst >= 2, sample={'history': [repr(o)[:70] for o in h[:6]], 'calls': len(h)})
         rep.count('histories')
@@ -188,7 +199,7 @@ def run(rep, tier, seed):
         if err:
             small = gen.shrink_list(list(h), lambda c: run_history(c, le)[0] is not None)
             rep.violations.append({'key': 'history', 'kind': 'history', 'history': [list(map(repr, o)) for o in small],
-                                   'raw': repr(small), 'what': err, 'text': repr(small)[:300]})
+                                   'raw': repr(small), 'what': err, 'text': repr(small)[:300], '_at': len(rep.trail) - 1})
             continue
         rep.compared += len(obs)
         if (r[0] != obs or r[1] != exprs):
@@ -246,7 +257,8 @@ def search(rep, tier, seed):
                     rep.violations.append({'key': 'history', 'kind': 'history', 'raw': repr(h[:idx + 1]),
                                            'history': [list(map(repr, o)) for o in h[:idx + 1]], 'text': repr(h[:idx + 1])[:300],
                                            'what': 'parse(%r) after this history returns %r; a fresh Licensing with the same table '
-                                                   'in a fresh interpreter returns %r' % (s, cg, want), 'pristine': True})
+                                                   'in a fresh interpreter returns %r' % (s, cg, want), 'pristine': True,
+                                           '_at': len(rep.trail or [])})
                     return
 
 
